@@ -446,7 +446,7 @@ theorem step_good {cfg : Cfg} (hc : CfgChan cfg) (w : World) (a : Action) (hg : 
   cases hcur : w.current with
   | none =>
     cases a <;> simp only [] <;>
-      (first | exact hg | exact Good.frame (loopRunTask_frame w) hg | exact Good.frame (loopTimers_frame w) hg
+      (first | exact hg | exact Good.frame (loopRunTask_frame cfg w) hg | exact Good.frame (loopTimers_frame w) hg
              | exact Good.frame ⟨rfl, rfl, rfl, fun _ => Nat.le_refl _⟩ hg)
   | some f =>
     cases a with
